@@ -61,6 +61,7 @@ func genOutboundCap(rng *rand.Rand, idx int) OutboundCapCase {
 }
 
 func phaseCaps(r *mon.Run) {
+	g := &guard{r: r, phase: "caps"}
 	nIn := r.Pick(24, 160)
 	for i := 0; i < nIn; i++ {
 		// the first case of every run is the dedicated reproduction of the
@@ -70,13 +71,14 @@ func phaseCaps(r *mon.Run) {
 		if i == 0 {
 			r.Sample(c)
 		}
-		runInboundCap(r, c)
+		g.run(func() { runInboundCap(r, c) })
 	}
 	nOut := r.Pick(8, 50)
 	for i := 0; i < nOut; i++ {
 		c := genOutboundCap(r.RNG(0xB800+uint64(i)), i)
-		runOutboundCap(r, c)
+		g.run(func() { runOutboundCap(r, c) })
 	}
+	g.done()
 }
 
 // sampler polls Peers() continuously and keeps the maxima.
